@@ -929,8 +929,10 @@ class TrioWorkerRun(WorkerRun):
         import trio
 
         try:
+            # (script option no_trigger: the worker is started without a shutdown trigger, as hypercorn.trio.serve()
+            #  does by default; only its own max_requests accounting can end it then)
             await serve(ASGIWrapper(self.app), config, sockets=Sockets([], [sock], []),
-                        shutdown_trigger=self.trigger_event.wait)
+                        shutdown_trigger=None if self.script.get("no_trigger") else self.trigger_event.wait)
         except BaseException as error:
             self.serve_finished = True
             if not self.cancelled_by_harness:
@@ -1007,6 +1009,11 @@ class TrioWorkerRun(WorkerRun):
                 self.cancelled_by_harness = True
                 self.log("serve_cancelled_by_harness")
             self.sealed = True
+            # (leftovers parked inside a shielded scope would outlive the cancellation, and with it this run)
+            from .trio_env import _unshield
+
+            for task in list(nursery.child_tasks):
+                _unshield(task)
             nursery.cancel_scope.cancel()
 
     def run(self) -> List[Dict[str, Any]]:
